@@ -2,7 +2,7 @@
 # usage: tools/runall.sh <tier> <seed>...   — runs every claimed check once per seed, prints one line per run
 tier=${1:-quick}; shift
 seeds=${@:-0}
-cd /verif
+cd "$(dirname "$0")/.."
 for s in $seeds; do
   for i in $(seq -w 1 20); do
     id=C$i
